@@ -913,9 +913,11 @@ func (t *Transport) roundTrip(req *http.Request) (resp *http.Response, err error
 		return nil, errors.New("http: nil Request.URL")
 	}
 
-	resp, err = t.checkAltSvc(req)
-	if err != nil || resp != nil {
-		return
+	if t.forceHttpVersion == "" {
+		resp, err = t.checkAltSvc(req)
+		if err != nil || resp != nil {
+			return
+		}
 	}
 
 	scheme := req.URL.Scheme
